@@ -431,6 +431,59 @@ waits('waits_input_joystick', 'joystick.rs', os.path.join(repo, 'glonax-input', 
 waits('waits_server_main', 'main.rs', os.path.join(repo, 'glonax-server', 'src'))
 waits('waits_control_main', 'main.rs', os.path.join(repo, 'glonax-control', 'src'))
 
+# ---- driver/governor.rs Governor::next_state, translated: the match on (signal.state, command.state) as a
+# first-match arm table  (signal state, [command states] ([] = any), Some (expired branch) | None, normal branch);
+# a branch = (rpm source: 0 = self.rpm_idle, 1 = command.rpm ; resulting state); states 0 NoRequest 1 Starting
+# 2 Stopping 3 Request. Anything that is not of this shape breaks the tie.
+ST={'NoRequest':0,'Starting':1,'Stopping':2,'Request':3}
+def governor_table(text):
+    """first-match arm table of Governor::next_state: (sig, [cmd...] ([] = any), expired-branch or None, normal branch);
+    a branch is (rpm source: 0 = rpm_idle, 1 = command.rpm ; resulting state)"""
+    t=_strip_comments(text)
+    m=re.search(r'match\s*\(\s*signal\.state\s*,\s*command\.state\s*\)\s*\{',t)
+    if not m: raise ValueError('match (signal.state, command.state) not found')
+    i=m.end(); depth=1; j=i
+    while depth:
+        if t[j]=='{': depth+=1
+        elif t[j]=='}': depth-=1
+        j+=1
+    body=t[i:j-1]
+    # split arms at top level: pattern => expr , | pattern => { block }
+    arms=[]; k=0
+    eng=r'Engine\s*\{\s*rpm\s*:\s*self\.reshape\(\s*(self\.rpm_idle|command\.rpm)\s*\)\s*,\s*state\s*:\s*EngineState::(\w+)\s*,\s*\.\.Default::default\(\)\s*,?\s*\}'
+    guard=r'if\s+let\s+Some\(instant\)\s*=\s*command_instant\s*\{\s*if\s+instant\.elapsed\(\)\s*>\s*self\.state_transition_timeout\s*\{\s*return\s+'+eng+r'\s*;\s*\}\s*\}'
+    arm_re=re.compile(r'\s*\(\s*EngineState::(\w+)\s*,\s*((?:EngineState::\w+\s*\|\s*)*EngineState::\w+|_)\s*\)\s*=>\s*(?:\{\s*'+guard+r'\s*'+eng+r'\s*\}\s*,?|'+eng+r'\s*,)',re.S)
+    while k<len(body) and body[k:].strip():
+        mm=arm_re.match(body,k)
+        if not mm: raise ValueError('arm not of the translated shape near: '+body[k:k+120].strip().replace('\n',' '))
+        sig=mm.group(1); pats=mm.group(2)
+        cmds=[] if pats.strip()=='_' else [ST[x] for x in re.findall(r'EngineState::(\w+)',pats)]
+        src=lambda s:0 if s=='self.rpm_idle' else 1
+        if mm.group(3):
+            exp=(src(mm.group(3)),ST[mm.group(4)]); nor=(src(mm.group(5)),ST[mm.group(6)])
+        else:
+            exp=None; nor=(src(mm.group(7)),ST[mm.group(8)])
+        arms.append((ST[sig],cmds,exp,nor)); k=mm.end()
+    return arms
+def coq(arms):
+    def br(b): return '(%d, %d)'%b
+    return '['+'; '.join('(%d, [%s], %s, %s)'%(s,'; '.join(map(str,c)),('Some '+br(e)) if e else 'None',br(n)) for s,c,e,n in arms)+']'
+
+notes = []
+try:
+    _gt = governor_table(src('driver/governor.rs'))
+    defs.append(('governor_arms', 'list (Z * list Z * option (Z * Z) * (Z * Z))', coq(_gt), 'driver/governor.rs Governor::next_state: translated arm table'))
+    defs.append(('governor_translated', 'bool', 'true', 'driver/governor.rs next_state has the shape the translator understands'))
+except Exception as e:
+    # a rewrite the translator does not understand is not a broken tie by itself: C07 / C08 then rest on the
+    # (exhaustive over states x ages x boundary speeds) correspondence alone, and say so in their evidence
+    notes.append('driver/governor.rs next_state is not of the translated shape (%s): translator tie unavailable, correspondence tie only' % e)
+    defs.append(('governor_arms', 'list (Z * list Z * option (Z * Z) * (Z * Z))', '[]', 'driver/governor.rs Governor::next_state: NOT translated'))
+    defs.append(('governor_translated', 'bool', 'false', 'driver/governor.rs next_state does not have the shape the translator understands'))
+if not re.search(r'pub fn reshape\(&self, torque: u16\) -> u16 \{\s*torque\.clamp\(self\.rpm_idle, self\.rpm_max\)\s*\}', _strip_comments(src('driver/governor.rs'))):
+    errors.append('driver/governor.rs reshape is no longer torque.clamp(self.rpm_idle, self.rpm_max)')
+defs.append(('governor_reshape_is_clamp', 'bool', 'true', 'driver/governor.rs reshape = torque.clamp(rpm_idle, rpm_max)'))
+
 EXTRA = os.path.join(os.path.dirname(os.path.abspath(__file__)), 'rs2v_extra.py')
 if os.path.exists(EXTRA):
     exec(compile(open(EXTRA).read(), EXTRA, 'exec'))
@@ -451,4 +504,6 @@ os.makedirs(outdir, exist_ok=True)
 p = os.path.join(outdir, 'Consts.v')
 if not os.path.exists(p) or open(p).read() != txt:
     open(p, 'w').write(txt)
+for n_ in notes:
+    print('rs2v: NOTE ' + n_)
 print('rs2v: %d definitions' % len(defs))
